@@ -149,6 +149,24 @@ func instrLocking(name string, list []ast.Stmt) []ast.Stmt {
 					out = append(out, wrap.List[1:]...)
 					continue
 				}
+			} else if !held && !forever && i > 0 {
+				// an unlocked region whose statement takes locks inside (a loop that locks per
+				// iteration): yield before it, and treat its body as a locking list of its own
+				out = append(out, yieldStmt(name, fset.Position(st.Pos()).Line))
+				count++
+				switch x := st.(type) {
+				case *ast.ForStmt:
+					x.Body.List = instrLocking(name, x.Body.List)
+				case *ast.RangeStmt:
+					x.Body.List = instrLocking(name, x.Body.List)
+				case *ast.BlockStmt:
+					x.List = instrLocking(name, x.List)
+				case *ast.IfStmt:
+					x.Body.List = instrLocking(name, x.Body.List)
+					if eb, ok := x.Else.(*ast.BlockStmt); ok {
+						eb.List = instrLocking(name, eb.List)
+					}
+				}
 			}
 		}
 		out = append(out, st)
